@@ -1056,9 +1056,15 @@ V("c03-twin-default-grid-answer-isnan", "C03", "-", "dask_array/_expr.py",
 
 # -- R03.13: nodes built under a precondition on their input's grid ---------------------------------------------------
 V("c03-sliding-window-reduction-not-grid-sensitive", "C03", "R03.13", "dask_array/reductions/_sliding_window.py",
-  "    def _requires_grid_preservation(self, dependency):\n        # built under a precondition on the input's block grid\n        return True\n\n    def _layer(self):\n        x = self.array\n        axis = self.sliding_axis\n\n        total_name", "    def _layer(self):\n        x = self.array\n        axis = self.sliding_axis\n\n        total_name", expect="SlidingWindowReduction")
+  "    def _requires_grid_preservation(self, dependency):\n        # built under a precondition on the input's block grid\n        return True\n\n    def _lower(self):\n        # The banded decomposition needs every output-emitting", "    def _lower(self):\n        # The banded decomposition needs every output-emitting", expect="SlidingWindowReduction")
 V("c03-take-one-chunk-not-grid-sensitive", "C03", "R03.13", "dask_array/slicing/_basic.py",
   "    def _requires_grid_preservation(self, dependency):\n        # built under a precondition on the input's block grid\n        return True\n\n", "", expect="TakeUnknownOneChunk")
 V("c03-new-node-built-under-grid-condition", "C03", "R03.13", "dask_array/routines/_unique.py", None, None, expect="UniqueAggregate", edits=[
   ("dask_array/routines/_unique.py", "def unique(ar, return_index=False", "def _unique_one_block(x):\n    if len(x.expr.chunks[0]) == 1:\n        return UniqueAggregate(x.expr, False, None)\n    return None\n\n\ndef unique(ar, return_index=False"),
 ])
+V("c03-sliding-window-reduction-never-rechecks", "C03", "R03.14", "dask_array/reductions/_sliding_window.py",
+  "        chunks = self.array.chunks[self.sliding_axis]\n        if supports_native_sliding_window(chunks, self.window):\n            return None\n        depth = self.window - 1\n", "        chunks = self.array.chunks[self.sliding_axis]\n        if len(chunks) > 1:\n            return None\n        depth = self.window - 1\n", expect="SlidingWindowReduction")
+V("c03-twin-sliding-window-recheck-inline-chunks", "C03", "-", "dask_array/reductions/_sliding_window.py",
+  "        chunks = self.array.chunks[self.sliding_axis]\n        if supports_native_sliding_window(chunks, self.window):\n            return None\n        depth = self.window - 1\n", "        if supports_native_sliding_window(self.array.chunks[self.sliding_axis], self.window):\n            return None\n        chunks = self.array.chunks[self.sliding_axis]\n        depth = self.window - 1\n", twin=True)
+V("c05-sliding-window-layer-without-unlowered-guard", "C05", "R05.9", "dask_array/reductions/_sliding_window.py",
+  "        graph = self._graph_if_unlowered()\n        if graph is not None:\n            return graph\n        x = self.array\n        axis = self.sliding_axis\n\n        total_name", "        x = self.array\n        axis = self.sliding_axis\n\n        total_name", expect="SlidingWindowReduction._layer")
